@@ -806,7 +806,9 @@ func ruleSSubUse(c *Ctx) {
 			st := atomName(env.Term(storeScript.Addr))
 			hv := atomName(env.Term(hash.Call.Args[0]))
 			idx := atomName(env.Term(hash.Call.Args[1]))
-			okStore := strings.Contains(st, "Clone(p1.tx).Inputs[p1.inputIdx].PreviousTxScript")
+			okStore := strings.Contains(st, "Clone(p1.tx).Inputs[p1.inputIdx].PreviousTxScript") ||
+				// the same element through the bounds-checked accessor (which returns tx.Inputs[i] or nil)
+				(strings.Contains(st, "(*bt.Tx).InputIdx((*bt.Tx).Clone(p1.tx), p1.inputIdx).PreviousTxScript") && inputIdxIsElement(c))
 			okHash := strings.Contains(hv, "Clone(p1.tx)") && idx == "uint32(p1.inputIdx)"
 			okShf := lastByteOf(env.Val(hash.Call.Args[2]), 0) != nil
 			// the hash verified is the direct result of this digest call
@@ -1352,4 +1354,31 @@ func ruleSMulti(c *Ctx) {
 		}
 	}
 	c.Check(okRes, "S-multi", "opcodeCheckMultiSig/result", fn.Pos(), "the pushed result is the loop's success flag (true when every signature found its key, false when keys ran out)", "OP_CHECKMULTISIG no longer pushes the matching loop's success flag")
+}
+
+// inputIdxIsElement: every non-nil result of Tx.InputIdx(i) is tx.Inputs[i].
+func inputIdxIsElement(c *Ctx) bool {
+	fn := c.P.Func("", "*Tx", "InputIdx")
+	if fn == nil {
+		return false
+	}
+	paths, err := feasiblePaths(fn, 200)
+	if err != nil {
+		return false
+	}
+	n := 0
+	for _, d := range paths {
+		if d.EndKind != "return" || d.Ret == nil || len(d.Ret.Results) != 1 {
+			return false
+		}
+		rt := d.Env.Term(d.Ret.Results[0])
+		if rt.K == "const" && rt.C == nil {
+			continue
+		}
+		n++
+		if atomName(rt) != "p0.Inputs[p1]" {
+			return false
+		}
+	}
+	return n > 0
 }
